@@ -50,11 +50,17 @@ func (_ dimensionSetter) UpdateProperties(po tabular.PropertyOwner) error {
 		// a declared height smaller than the text still shows all the text
 		lineCount = len(lines)
 	}
+	_, declaredWidth := cell.Item().(tabular.TerminalCellWidther)
 	linesWidths := make([]decoration.WidthString, lineCount)
 	for i, l := range lines {
+		w := length.StringCells(l)
+		if declaredWidth && len(lines) == 1 {
+			// the item knows better than we do how wide its one line displays
+			w = dims.cellWidth
+		}
 		linesWidths[i] = decoration.WidthString{
 			S: l,
-			W: length.StringCells(l),
+			W: w,
 		}
 	}
 
